@@ -304,7 +304,9 @@ Definition force_self_closing (b : bytes) : bytes :=
        let open_tag := cap_bytes c 1 b in
        let contents := cap_bytes c 2 b in
        let close_tag := cap_bytes c 3 b in
-       if beqb open_tag close_tag
+       (* same names, and the opening tag is not itself a self-closed tag whose slash ended up in
+          the attribute group (`<a k="v"/></a>` inside an enclosing <a>: repaired in a25e5cc) *)
+       if beqb open_tag close_tag && negb (is_suffix [SLASH] contents)
        then replace_all_lit full ([LT] ++ open_tag ++ contents ++ [SLASH; GT]) acc
        else acc)
     (rx_find_all rx_ncd_emptyTags b) b.
